@@ -67,13 +67,15 @@ func (s *session) capture(c fiber.Ctx, step int, keep bool) []*entry {
 	if keep {
 		out = make([]*entry, 0, 512)
 	}
+	// an empty string / slice has no bytes that could change: it is not kept (the differential
+	// oracle sees an id that is missing on one side as a difference, the anchors read it as "")
 	S := func(acc, key, v string) {
-		if keep {
+		if keep && v != "" {
 			out = append(out, newStr(acc, key, v, step))
 		}
 	}
 	B := func(acc, key string, v []byte) {
-		if keep {
+		if keep && len(v) > 0 {
 			out = append(out, newBytes(acc, key, v, step))
 		}
 	}
@@ -100,6 +102,7 @@ func (s *session) capture(c fiber.Ctx, step int, keep bool) []*entry {
 	for _, k := range paramKeys {
 		S("Params", k, c.Params(k))
 		S("Params[string]", k, fiber.Params[string](c, k))
+		B("Params[[]byte]", k, fiber.Params[[]byte](c, k))
 	}
 	S("Path", "", c.Path())
 	S("OriginalURL", "", c.OriginalURL())
@@ -115,6 +118,7 @@ func (s *session) capture(c fiber.Ctx, step int, keep bool) []*entry {
 	for _, k := range headerKeys {
 		S("Get", k, c.Get(k))
 		S("GetReqHeader[string]", k, fiber.GetReqHeader[string](c, k))
+		B("GetReqHeader[[]byte]", k, fiber.GetReqHeader[[]byte](c, k))
 	}
 	MSL("GetReqHeaders", "", c.GetReqHeaders())
 	for _, k := range cookieKeys {
@@ -306,11 +310,11 @@ func (s *session) capture(c fiber.Ctx, step int, keep bool) []*entry {
 }
 
 var (
-	paramKeys  = []string{"id", "name", "a", "*", "+", "*1", "+1"}
-	queryKeys  = []string{"q", "tag", "n", "src", "extra"}
-	headerKeys = []string{"Host", "X-Custom", "Cookie", "Referer", "Accept", "Content-Type", "X-Forwarded-For", "X-Forwarded-Host", "Range", "Connection", "Accept-Language"}
+	paramKeys  = []string{"id", "name", "a", "*", "+", "*1", "+1", "*2", "n", "s", "from", "to", "file", "ext"}
+	queryKeys  = []string{"q", "tag", "tag[]", "n", "src", "extra"}
+	headerKeys = []string{"Host", "X-Custom", "Cookie", "Referer", "Accept", "Content-Type", "Content-Encoding", "X-Forwarded-For", "X-Forwarded-Host", "Range", "Connection", "Accept-Language", "x-custom"}
 	cookieKeys = []string{"sid", "theme", "l", "other", "fiber_flash"}
-	formKeys   = []string{"name", "tags", "note", "b", "q"}
+	formKeys   = []string{"name", "tags", "tags[]", "note", "b", "q"}
 )
 
 func sortedKeys[V any](m map[string]V) []string {
